@@ -87,7 +87,12 @@ func (k *Keeper) NewEVM(
 			}
 
 			metadata := contract.GetMetadata()
-			contracts = append(contracts, corevm.NewCustomPrecompiledContract(common.BytesToAddress(metadata.Address), methods, metadata.Name))
+			precompile := corevm.NewCustomPrecompiledContract(common.BytesToAddress(metadata.Address), methods, metadata.Name)
+			if cpc, ok := precompile.(*corevm.CustomPrecompiledContract); ok {
+				// a contract marked disabled must not be executable
+				cpc.WithDisabled(metadata.Disabled)
+			}
+			contracts = append(contracts, precompile)
 		}
 		evm = evm.WithCustomPrecompiledContracts(contracts...)
 	}
